@@ -329,7 +329,8 @@ def run(ctx, budget=None):
                 if bad2 <= 5:
                     rep.tie_break("correspondence", "Fmt2.fmt vs format (whole vocabulary)", {"tree": t, "real": real_sql, "model": a["sql"]})
                 continue
-            if a["admissible"] and not a["ok"]:
+            if a["admissible"] and not a["ok"] and getattr(ctx, "build_ok", True):
+                # (only meaningful while the table obligations hold: with a broken obligation the theorem promises nothing)
                 raise C.InfraError("model: admissible tree whose output is not compatible (contradicts the theorem): " + json.dumps(t))
             if a["ok"]:
                 okk, obs, _ = roundtrip(R, "select", t)
